@@ -72,6 +72,12 @@ def unpivot(unpivot_fields, extra_keys, extra_value, regex=True, resources=None)
                     config['unpivot_fields_without_regex'].append(field_to_pivot)
 
             config['fields_to_keep'] = [f['name'] for f in fields]
+            # a primary key that lost one of its fields is no key any more
+            primary_key = schema.get('primaryKey') or []
+            if isinstance(primary_key, str):
+                primary_key = [primary_key]
+            if any(k not in config['fields_to_keep'] for k in primary_key):
+                del schema['primaryKey']
             # one descriptor per resource: a shared dict would make a later change to the field
             # in one resource show up in all of them
             fields.extend(copy.deepcopy(extra_keys))
